@@ -679,16 +679,12 @@ func runCase(r *vrt.R, id caseID, sets ...func(*config.Config)) {
 		return
 	}
 	br := broken(c)
-	kind := id.F1
-	if id.F2 != "" {
-		kind = id.F1 + "+" + id.F2
-	}
 	switch {
 	case len(errs) == 0 && len(br) > 0:
 		r.Violation("Validate/accepts-broken-constraint/"+br[0], fmt.Sprintf("%v: documented constraint(s) %v broken but Validate reported no error", id, br), id)
 		return
 	case len(errs) > 0 && len(br) == 0:
-		r.Violation("Validate/rejects-documented-config/"+kind, fmt.Sprintf("%v: no documented constraint is broken but Validate reported %v", id, errs), id)
+		r.Violation("Validate/rejects-documented-config/"+errTemplate(errs[0]), fmt.Sprintf("%v: no documented constraint is broken but Validate reported %v", id, errs), id)
 		return
 	case len(errs) > 0:
 		r.Class("rejected:" + br[0])
@@ -742,6 +738,39 @@ func roundTrips(r *vrt.R, id caseID, c *config.Config) {
 	} else if d := diffPath(want, reflect.ValueOf(c3).Elem(), ""); d != "" {
 		r.Violation("roundtrip/file-reload-changed/"+fieldOf(d), fmt.Sprintf("%v: persist -> reload changed %s", id, d), id)
 	}
+}
+
+// errTemplate reduces a validation error to its constant words (quoted values, numbers and
+// punctuation removed) so that the violation key names the rule that fired, not the input.
+func errTemplate(err error) string {
+	var words []string
+	inQuote := false
+	for _, w := range strings.Fields(err.Error()) {
+		startsQ := strings.HasPrefix(w, "\"") || strings.HasPrefix(w, "'")
+		endsQ := len(w) > 1 && (strings.HasSuffix(strings.TrimRight(w, ":,."), "\"") || strings.HasSuffix(strings.TrimRight(w, ":,."), "'"))
+		if inQuote {
+			if strings.ContainsAny(w, "\"'") {
+				inQuote = false
+			}
+			continue
+		}
+		if startsQ {
+			if !endsQ {
+				inQuote = true
+			}
+			continue
+		}
+		clean := strings.Map(func(r rune) rune {
+			if r >= 'a' && r <= 'z' || r >= 'A' && r <= 'Z' {
+				return r
+			}
+			return -1
+		}, w)
+		if clean != "" && len(words) < 6 {
+			words = append(words, strings.ToLower(clean))
+		}
+	}
+	return strings.Join(words, "-")
 }
 
 func fieldOf(d string) string {
